@@ -2,7 +2,7 @@
    Only statements here; proofs are in Proofs/PreParse*.v. *)
 Require Import BB.Base.Str BB.Gen.TablesParser BB.Model.PreParse BB.Model.PreParseSpec.
 Require Import BB.Proofs.PreParseNF BB.Proofs.PreParseInvariance BB.Proofs.PreParseScale BB.Proofs.PreParseTrailing.
-Require Import BB.Proofs.PlainLineConvert BB.Proofs.PreParseStair.
+Require Import BB.Base.Xml BB.Model.Convert BB.Gen.TablesLibs BB.Proofs.PegLine BB.Proofs.LineRule BB.Proofs.PlainLineConvert BB.Proofs.PreParseStair BB.Proofs.HierElement BB.Proofs.HierElementConvert BB.Proofs.HierChainConvert.
 
 (* For every text over the alphabet: the first content line is at depth 0 and, for every two
    consecutive non-blank lines with indentation widths w, w' and depths d, d' (depth = number of
@@ -98,3 +98,18 @@ Proof.
   split; [cbn; repeat split; lia|]. split; [|vm_compute; reflexivity].
   repeat constructor; try (unfold TAB, NL; cbn; discriminate); cbn; try reflexivity.
 Qed.
+
+(* At the level of the DOCUMENT, through the whole pipeline model, for nests of hierarchical elements of any depth: only the order of the
+   indentation widths matters.  The same levels and the same line, indented by any two strictly growing sequences of widths (scaled by
+   a constant, shifted, irregular), convert to the same document (Proofs/HierChainConvert.v). *)
+Theorem C12_nested_document_ignores_indentation_widths : forall uri prefix l0 (lv lv' : list (nat * plevel)) kt kt' t root_meta att_meta,
+  assoc_str uri meta_templates = Some (root_meta, att_meta) ->
+  map snd lv = map snd lv' ->
+  Forall plevel_full (l0 :: map snd lv) ->
+  growing 0 (map (fun kl => (fst kl, header (snd kl))) lv ++ [(kt, t)]) ->
+  growing 0 (map (fun kl => (fst kl, header (snd kl))) lv' ++ [(kt', t)]) ->
+  plain_text t -> none_starts block_lits t = true -> p_safe t = true -> starts_with SUBH t = false -> no_ctl_start t = true ->
+  convert uri (of_string "hier_element") prefix (stair_text ((0%nat, header l0) :: rows_of lv kt t))
+  = convert uri (of_string "hier_element") prefix (stair_text ((0%nat, header l0) :: rows_of lv' kt' t)).
+Proof. exact nest_ignores_widths. Qed.
+Print Assumptions C12_nested_document_ignores_indentation_widths.
